@@ -107,6 +107,8 @@ def run(cx):
     # a resync offered while fragments are still unsent lets the receiver skip a Reliable packet that is then never sent
     from props.C02 import inst_resync_guard
     inst_resync_guard(cx, "C12.o")
+    from props.C11 import ack_advance_exact
+    ack_advance_exact(cx, "C12.p")
 
 
 def drop_guard(cx, iid):
